@@ -539,7 +539,7 @@ def c10(pid, tier, work, replay):
     jobs = pool_jobs("c10", "C10", s, nt, nops, work, weights=w, chunks=chunks)
     jobs += race_jobs("c10race", s, tier, work, "ledger")
     # many fresh pools whose very first keep-alives run in parallel (lazily initialised state races there)
-    jobs += pool_jobs("c10fresh", "C10race", s + 5, sized(tier, 120, 1500), 0, work, cfg=RACE_CFG,
+    jobs += pool_jobs("c10fresh", "C10race", s + 5, sized(tier, 120, 1500), 0, work, cfg=dict(RACE_CFG, allclients=True),
                       weights=dict(burst=1), chunks=1 if tier == "quick" else 4, binary="viprace")
     jobs += nonce_race_jobs("c10nonce", s, tier, work)
     return trace_family(
